@@ -178,7 +178,53 @@ func (ex *Exec) markEscaped(v Val) {
 	}
 	for _, l := range leavesOf(v) {
 		if l.S == SRef {
-			ex.escaped[l.T] = true
+			ex.markEscapedTerm(l.T, map[string]bool{})
+		}
+	}
+}
+
+// markEscapedAny also looks inside executor-only values (interior pointers
+// and slices into local objects).
+func (ex *Exec) markEscapedAny(v Val) {
+	switch x := v.(type) {
+	case *PtrI:
+		if x.A.Ref != "" {
+			ex.markEscapedTerm(x.A.Ref, map[string]bool{})
+		}
+	case *SliceI:
+		if x.A.Ref != "" {
+			ex.markEscapedTerm(x.A.Ref, map[string]bool{})
+		}
+	case *Clo:
+		for _, b := range x.Binds {
+			ex.markEscapedAny(b)
+		}
+	case *Agg:
+		for _, f := range x.F {
+			ex.markEscapedAny(f)
+		}
+	case Sc:
+		if x.S == SRef {
+			ex.markEscapedTerm(x.T, map[string]bool{})
+		}
+	case *Arr:
+		ex.markEscaped(v)
+	}
+}
+
+// markEscapedTerm marks every local allocation that the term may denote
+// (looking through bound names and ite-merges).
+func (ex *Exec) markEscapedTerm(t string, seen map[string]bool) {
+	for _, tok := range tokenRe.FindAllString(t, -1) {
+		if seen[tok] {
+			continue
+		}
+		seen[tok] = true
+		if ex.isLocalRef(tok) {
+			ex.escaped[tok] = true
+		}
+		if d, ok := ex.vc.defs[tok]; ok {
+			ex.markEscapedTerm(d, seen)
 		}
 	}
 }
@@ -664,15 +710,22 @@ func (ex *Exec) valEq(a, b Val, t types.Type) string {
 		ex.unsupportedf("comparison of exec-only values %T %T", a, b)
 	}
 	if kindOf(t) == KSlice {
-		// only s == nil is legal
-		aa, ok := a.(*Agg)
-		if !ok {
-			aa = b.(*Agg)
+		// Go only allows s == nil; contracts also compare slice headers
+		aa, ok1 := a.(*Agg)
+		bb, ok2 := b.(*Agg)
+		if ok1 && ok2 {
+			if sc(bb.F[0]).T == z64() {
+				return eq(sc(aa.F[0]).T, z64())
+			}
+			if sc(aa.F[0]).T == z64() {
+				return eq(sc(bb.F[0]).T, z64())
+			}
+			return and(eq(sc(aa.F[0]).T, sc(bb.F[0]).T), eq(sc(aa.F[1]).T, sc(bb.F[1]).T), eq(sc(aa.F[2]).T, sc(bb.F[2]).T), eq(sc(aa.F[3]).T, sc(bb.F[3]).T))
 		}
-		if s, ok := a.(Sc); ok && s.T == z64() {
-			aa = b.(*Agg)
+		if ok1 {
+			return eq(sc(aa.F[0]).T, z64())
 		}
-		return eq(sc(aa.F[0]).T, z64())
+		return eq(sc(bb.F[0]).T, z64())
 	}
 	// nil constant against slice comes as Agg zero; handled above. Generic:
 	la, lb := leavesOf(a), leavesOf(b)
